@@ -14,6 +14,9 @@ def run (case impl : String) : String :=
   match (words case), (words case).tail.mapM String.toInt? with
   | "shard" :: _, some [n, msb, tok] =>
     toString (shardOfImpl n.toNat (UInt8.ofNat msb.toNat) (tokenNew (Int64.ofInt tok)))
+  | "shardraw" :: _, some [n, msb, tok] =>
+    -- token built by `FromStr`: the raw value, not normalised
+    toString (shardOfImpl n.toNat (UInt8.ofNat msb.toNat) (Int64.ofInt tok))
   | "shardspec" :: _, some [n, msb, tok] => toString (shardOfSpec n.toNat msb.toNat tok)
   | "port" :: _, some [n, p] => toString (shardOfPort n.toNat p.toNat)
   | "lowest" :: _, some [n, s, lo, hi] => optNat (lowestPort n.toNat s.toNat lo.toNat hi.toNat)
